@@ -3,7 +3,6 @@ from typing import Any, Optional, Type, TypeVar
 from django.template import Origin, Template
 
 from django_components.cache import get_template_cache
-from django_components.util.misc import get_import_path
 
 TTemplate = TypeVar("TTemplate", bound=Template)
 
@@ -52,11 +51,12 @@ def cached_template(
     template_cache = get_template_cache()
 
     template_cls = template_cls or Template
-    template_cls_path = get_import_path(template_cls)
-    engine_cls_path = get_import_path(engine.__class__) if engine else None
+    # NOTE: The class and the engine are part of the key as the objects themselves. Two different classes may share
+    #       an import path (e.g. classes made by a factory function), and two engines of the same class may be
+    #       configured with different builtins, libraries or loaders.
     # NOTE: The name and origin decide how relative paths in `{% extends %}` and `{% include %}` are resolved
     origin_key = (origin.name, origin.template_name) if origin else None
-    cache_key = (template_cls_path, template_string, engine_cls_path, name, origin_key)
+    cache_key = (template_cls, template_string, engine, name, origin_key)
 
     maybe_cached_template: Optional[Template] = template_cache.get(cache_key)
     if maybe_cached_template is None:
